@@ -269,6 +269,14 @@ def reshape(x, shape):
     if a.ndim == 2 and len(sh) == 2:
         cols, ncols = a.shape[1], sh[1]
         return SArr(Cell(lambda i, j: a.at((i * ncols + j) / cols, (i * ncols + j) % cols), sh, a.kind))
+    if a.ndim == 3 and len(sh) == 2 and z3.eq(z3.simplify(a.shape[2]), z3.simplify(sh[1])):
+        # (A, M, d) -> (A*M, d), trailing axis kept (row-major): out[r, j] = a[r div M, r mod M, j]
+        A_, M_ = a.shape[0], a.shape[1]
+        if neg:
+            vc.assume(z3.Implies(sh[1] > 0, sh[0] == A_ * M_))      # consequence of q * d == A * M * d for d > 0
+        out = SArr(Cell(lambda r, j: a.at(r / M_, r % M_, j), sh, a.kind))
+        vc.libcall('np.reshape3', dict(src=a, res=out, rows=M_))
+        return out
     raise OutOfSubset('reshape %d-d -> %d-d' % (a.ndim, len(sh)))
 
 
